@@ -16,7 +16,8 @@ def value_table(C):
     strs = ['', 'a', "it's", 'say "hi"', 'back\\slash', 'new\nline\ttab', 'é☃', "mix'\"both"]
     lists = [[], [1], [1, 'a', None], [[1, 2], (3,)], [(1,)], [-1.5, INF], [True, b'x'], ['q"uote']]
     tuples2 = [(0, 0), (1, 'a'), ((1,), [2]), (-INF, None)]
-    generic = [None, 0, -7, 2.5, 'txt', b'\x00\xff', True, (), (1,), (1, 2), ((1,),), [], [(2,)], {'a': 1}, {'k': (1,)}, {1: 'x', 'y': [1]}, INF, -INF]
+    generic = [None, 0, -7, 2.5, 'txt', b'\x00\xff', True, (), (1,), (1, 2), ((1,),), [], [(2,)], {'a': 1}, {'k': (1,)}, {1: 'x', 'y': [1]}, INF, -INF,
+               {'a': INF}, {'k': [-INF, (1,)]}, {INF: 1}, {1, 2}, {-INF}, set(), [{'a': INF}], 'LEAFDICT']
     return {
         'Plain': {'i': ints, 'f': floats, 's': strs, 'by': [b'', b'a', b'\x00\xff\'"'], 'b': [True, False], 'v': generic, 'l': lists,
                   't': tuples2, 'd': [{}, {'a': 1}, {'a': (1,), 'b': [1, 2]}, {'é': None}],
@@ -31,6 +32,8 @@ def value_table(C):
 
 def resolve(C, v):
     """symbolic nested objects -> fresh Parameterized instances"""
+    if v == 'LEAFDICT':
+        return {'leaf': C.Leaf(x=7), 'n': [C.Leaf(tag='in list in dict')]}          # nested objects inside a dict value
     if isinstance(v, str) and v.startswith('LEAF'):
         return [C.Leaf(), C.Leaf(x=2.5, tag="it's"), C.Leaf(x=-INF, name='named_leaf'), C.Leaf(x=4, name='Leaf3_conv')][int(v[4])]
     if isinstance(v, str) and v.startswith('NEST'):
@@ -83,6 +86,8 @@ def equal_vals(a, b, auto_ok=True):
         return len(a) == len(b) and all(equal_vals(x, y) for x, y in zip(a, b))
     if isinstance(a, dict):
         return a.keys() == b.keys() and all(equal_vals(a[k], b[k]) for k in a)
+    if isinstance(a, (set, frozenset)):
+        return a == b
     return a == b
 
 
@@ -94,7 +99,7 @@ class C20(Harness):
     rule = ('case = (class, parameter, value index) or (class, all-parameters combination); for each, both script_repr() and .param.pprint() '
             'texts are evaluated and the rebuilt object compared parameter by parameter (recursively for nested Parameterized); non-trivial = '
             'the state differs from the defaults')
-    assumptions = ('NaN excluded (no equality); non-finite floats inside dict values excluded (dicts are printed with repr); values are literals, '
+    assumptions = ('NaN excluded (no equality); values are literals, '
                    'lists/tuples/dicts of literals, or nested Parameterized objects of importable classes',)
 
     def bounds(self, tier):
